@@ -85,6 +85,32 @@ func (sp *ServiceProvider) ValidatePostSignature(authRequest string) error {
 	return signature.ValidatePost(certs, doc.Root())
 }
 
+// ValidateAttributeQuerySignature validates the enveloped signature of the AttributeQuery inside a SOAP envelope.
+// The envelope has to contain exactly one body with the AttributeQuery as its only element, so that the
+// validated element is the one that gets processed.
+func (sp *ServiceProvider) ValidateAttributeQuerySignature(soapEnvelope string) error {
+	doc := etree.NewDocument()
+	if err := doc.ReadFromBytes([]byte(soapEnvelope)); err != nil {
+		return err
+	}
+
+	if doc.Root() == nil {
+		return fmt.Errorf("error while parsing request")
+	}
+
+	bodies := doc.Root().SelectElements("Body")
+	if len(bodies) != 1 || len(bodies[0].ChildElements()) != 1 || bodies[0].ChildElements()[0].Tag != "AttributeQuery" {
+		return fmt.Errorf("error while parsing request, expected exactly one attribute query in the body")
+	}
+
+	certs, err := getSigningCertsFromMetadata(sp.Metadata)
+	if err != nil {
+		return err
+	}
+
+	return signature.ValidatePost(certs, bodies[0].ChildElements()[0])
+}
+
 // ValidateRedirectSignatureOfQuery validates the signature of a HTTP-Redirect binding request over the octets of the
 // query string as they were sent (SAML bindings 3.4.4.1), so that the percent-encoding style of the sender does not matter.
 // The decoded values the caller acts on have to be the ones found in the query string.
